@@ -385,7 +385,9 @@ impl Serialize for AnnotationDataSet {
             } else if let Ok(id) = self.temp_id() {
                 state.serialize_field("@id", id.as_str())?;
             }
-            state.serialize_field("keys", &self.keys)?;
+            //(removed keys leave a gap in the store, they must not be serialised as null)
+            let keys: Vec<&DataKey> = self.keys.iter().flatten().collect();
+            state.serialize_field("keys", &keys)?;
             let wrappedstore: WrappedStore<AnnotationData, Self> = self.wrap_store(None);
             state.serialize_field("data", &wrappedstore)?;
         }
